@@ -40,7 +40,7 @@ def _cli_rows(chk, n):
             events.append({"k": e["k"], "name": e.get("name", ""), "el": e.get("el", 0), "tag": e.get("tag", ""), "raised": bool(e.get("raised", False)),
                            "pos": e.get("pos", 0), "outcome": e.get("outcome", ""), "status": "", "undefined": False, "cid": e.get("cid", 0), "att": 1})
         end = inproc["end"]
-        rows.append({"id": k + 1, "prog": job["tla"]["prog"], "cfg": job["tla"]["cfgs"][0], "hookcl": False, "skips": job["tla"]["skips"], "events": events, "exit": out["exit"],
+        rows.append({"id": k + 1, "prog": job["tla"]["prog"], "cfg": job["tla"]["cfgs"][0], "hookcl": job["tla"]["hookcl"], "skips": job["tla"]["skips"], "events": events, "exit": out["exit"],
                      "end": {"ran": True, "verdict": end["verdict"], "status": end["status"], "step_status": end["step_status"], "hook_failed": end["hook_failed"]},
                      "base": {"ran": False}})
         if [(e["k"], e["name"], e["el"], e["pos"]) for e in events] != [(e["k"], e["name"], e["el"], e["pos"]) for e in inproc["events"] if e["k"] in ("hook", "step", "cleanup", "sub")]:
@@ -74,7 +74,7 @@ def replay(chk, payload):
         events = [{"k": e["k"], "name": e.get("name", ""), "el": e.get("el", 0), "tag": e.get("tag", ""), "raised": bool(e.get("raised", False)),
                    "pos": e.get("pos", 0), "outcome": e.get("outcome", ""), "status": "", "undefined": False, "cid": e.get("cid", 0), "att": 1} for e in out["events"]]
         end = inproc["end"]
-        row = {"id": 1, "prog": case["prog"], "cfg": case["cfgs"][0], "skips": case["skips"], "hookcl": False, "events": events, "exit": out["exit"],
+        row = {"id": 1, "prog": case["prog"], "cfg": case["cfgs"][0], "skips": case["skips"], "hookcl": case["hookcl"], "events": events, "exit": out["exit"],
                "end": {"ran": True, "verdict": end["verdict"], "status": end["status"], "step_status": end["step_status"], "hook_failed": end["hook_failed"]},
                "base": {"ran": False}}
         verdicts = trace.judge_rows(chk, "RunCli_Trace", [row], chunks=1)
